@@ -1698,8 +1698,9 @@ func child(_ *tr.W, thorough bool) {
 			probeCase(o, idx)
 		} else if idx%15 == 7 {
 			winStopCase(o, idx, r)
-		} else if idx%150 == 40 {
-			slowCase(o, idx, 2100+r.Intn(4500), r, "slow")
+		} else if idx%450 == 40 {
+			// one per quick run (the fixed probe has 5000), one per 450 cases in a thorough run
+			slowCase(o, idx, 2100+r.Intn(1500), r, "slow")
 		} else if idx%3 == 2 {
 			freeCase(o, idx, r, thorough)
 		} else {
